@@ -367,6 +367,7 @@ def run(tier, seed, jobs):
 
 def replay(case, scenario, seed):
     res = Result()
+    case = {k: v for k, v in case.items() if k != "shape"}
     if "uri" in case:
         print("     uri:", case["uri"])
         m = check_text(res, case.get("family", "replay"), case["uri"], "either" if case.get("family") in ("strings",) else "ok", {k: v for k, v in case.items() if k != "uri"})
